@@ -42,6 +42,7 @@ def generic_replay(ctx, mod, rp):
     impl_cmd, model_cmd = cmds
     a = vlib.run_one(ctx, impl_cmd, rp['ops'], 'rp_i')
     b = vlib.run_one(ctx, model_cmd, rp['ops'], 'rp_m')
+    if hasattr(mod, 'canon'): a, b = mod.canon(a), mod.canon(b)
     print('ops:'); [print('  ' + l) for l in rp['ops']]
     print('implementation:'); [print('  ' + l) for l in a]
     print('model:'); [print('  ' + l) for l in b]
